@@ -67,15 +67,7 @@ Section WorldThm.
     v_cap d' = v_cap src /\ v_fixed d' = v_fixed src.
   Proof.
     intros R. unfold copy_assign. rewrite (Hdt L Htriv).
-    destruct (aap_copy_assign K L d src nb) as [[[[[bid u] a] fresh] e3] nb1] eqn:Ea.
     rewrite (insert_into_triv L Htriv). cbn [fst snd].
-    assert (Haid : a = if pocca K then v_aid src else v_aid d).
-    { unfold aap_copy_assign in Ea.
-      destruct (pocca K) eqn:Hp; cbn [andb] in Ea.
-      - destruct (negb (always_eq K) && negb (v_aid d =? v_aid src)).
-        + inversion Ea; reflexivity.
-        + destruct ((v_units d <? v_units src) || _); inversion Ea; reflexivity.
-      - destruct ((v_units d <? v_units src) || _); inversion Ea; reflexivity. }
     repeat split; auto.
     apply relocate_rep; auto.
     - destruct R as [offs R]. exact (r_cap _ _ _ _ R).
